@@ -150,7 +150,7 @@ func parseExpr(src string) (res ast.ExpressionNode, why string) {
 	}()
 	prog, diags := parser.Parse("<prec>", src)
 	if len(diags) > 0 {
-		return nil, oneLine(diags[0].Message, 80)
+		return nil, rtOneLine(diags[0].Message, 80)
 	}
 	if prog == nil || len(prog.Body) != 1 {
 		return nil, "not a single statement"
